@@ -69,5 +69,15 @@ def callAnswers : List AOp → List Ans → List Ans
   | .mutate _ _ :: ops, _ :: as => callAnswers ops as
   | _, _ => []
 
+/-- one exchange point of the library (a collection handed out or taken in) in one state, and
+    whether an edit of the caller's collection changed anything observable on the REAL code
+    (EG/Generated/ExchangeTable.lean, regenerated on every run of the C12 check).  In this model
+    nothing is shared, i.e. the model is the table in which every row says `false`. -/
+structure ExchangeRow where
+  id : Nat
+  point : String
+  leaks : Bool
+  deriving Repr, DecidableEq
+
 end A
 end EG
